@@ -6,6 +6,7 @@ import Driver.Convert
 import Driver.CL
 import Driver.ShareClass
 import Driver.Route
+import Driver.Lockup
 open Sunrise.Driver
 
 def evalLine (line : String) : String :=
@@ -31,6 +32,7 @@ def suites : List (String × (IO.FS.Stream → IO.FS.Stream → IO Unit)) :=
 def suites : List (String × (IO.FS.Stream → IO.FS.Stream → IO Unit)) := [
   ("convert", ConvertSuite.run),
   ("route", RouteSuite.run)
+  ("lockup", LockupSuite.run)
 ]
 
 def main : IO Unit := do
